@@ -140,7 +140,7 @@ def wrong_passwords(fmt, p):
 def _verify(side, fmt, rounds, h, p):
     """('ok', bool) | ('exc', e)"""
     try:
-        if side == "libpass":
+        if side.startswith("libpass"):
             return ("ok", lp_hasher(fmt, rounds).verify(h, p))
         return ("ok", HS.handler(fmt).verify(p, h))
     except core.HarnessError:
@@ -174,11 +174,15 @@ def eval_interop(case):
         if not isinstance(h, str):
             out.append((f"C20|{fmt}|{maker}_hash:not_text", f"{maker} {fmt} hash is {type(h).__name__}"))
             continue
-        for side in ("passlib", "libpass"):
+        for side in ("passlib", "libpass", "libpass@other_cost"):
             if maker == "passlib" and side == "passlib":
                 continue  # C01's subject
             mt = tag if maker == "passlib" else ""
-            r = _verify(side, fmt, rounds, h, p)
+            vrounds = rounds
+            if side == "libpass@other_cost":
+                # a verifier configured for another cost must still honour the cost stored in the hash
+                vrounds = other_costs(fmt, rounds)[0]
+            r = _verify(side, fmt, vrounds, h, p)
             if r[0] == "exc":
                 out.append((f"C20|{fmt}|{maker}_hash:{side}_verify:raises:{_exc(r[1])}{mt}", f"{side} verify({p!r}) of the {maker}-made {h!r} raised {r[1]!r}"))
                 continue
@@ -186,7 +190,7 @@ def eval_interop(case):
                 out.append((f"C20|{fmt}|{maker}_hash:{side}_verify:own_password_rejected{mt}",
                             f"the {maker}-made {fmt} hash {h!r} of {p!r} (salt {salt!r}, cost {rounds}) does not verify under {side}: {r[1]!r}"))
             for label, q in wrongs:
-                r = _verify(side, fmt, rounds, h, q)
+                r = _verify(side, fmt, vrounds, h, q)
                 if r[0] == "exc":
                     if isinstance(r[1], (ValueError, TypeError)) and side == "passlib":
                         continue
@@ -271,7 +275,7 @@ def eval_identify(case):
     if own and got is not True:
         out.append((f"C20|{fmt}|identify:own_format_rejected:passlib_made", f"libpass {fmt} hasher does not identify the passlib {scheme} hash {h!r}"))
     if not own and got is not False:
-        out.append((f"C20|{fmt}|identify:claims_foreign_format:{scheme}", f"libpass {fmt} hasher identifies the {scheme} hash {h!r} as its own"))
+        out.append((f"C20|{fmt}|identify:claims_foreign_format", f"libpass {fmt} hasher identifies the {scheme} hash {h!r} as its own"))
     if not own:
         try:
             nu = lp.needs_update(h)
@@ -282,7 +286,7 @@ def eval_identify(case):
         try:
             v = lp.verify(h, case["password"])
             if v is not False:
-                out.append((f"C20|{fmt}|verify:foreign_format_accepted:{scheme}", f"libpass {fmt}.verify({h!r}) [a {scheme} hash] = {v!r}"))
+                out.append((f"C20|{fmt}|verify:foreign_format_accepted", f"libpass {fmt}.verify({h!r}) [a {scheme} hash] = {v!r}"))
         except Exception:  # noqa: BLE001
             pass
     return out
@@ -301,33 +305,46 @@ def sample_hashes(fmt, maker, p, seed):
 
 
 def eval_context(case):
+    """the context is judged as a composition: cells where the component hasher itself misbehaves (reported by the
+    interop part under the format's own key) are skipped here"""
     from libpass.context import CryptContext
 
     schemes, seed = case["schemes"], case.get("seed", 0)
     name = ">".join(schemes)
-    n = len(schemes)
-    comp = f"context:{n}_schemes"
+    comp = "context"
     out = []
+    hashers = {f: lp_hasher(f, BASE_ROUNDS[KIND[f]]) for f in FORMATS}
     try:
-        C = CryptContext([lp_hasher(f, BASE_ROUNDS[KIND[f]]) for f in schemes])
+        C = CryptContext([hashers[f] for f in schemes])
     except Exception as e:  # noqa: BLE001
         return [(f"C20|{comp}|construct:raises:{_exc(e)}", f"CryptContext({name}) raised {e!r}")]
     first = schemes[0]
     p = PW
     q = PW + "x"
+
+    def component_ok(fmt, h):
+        try:
+            return (hashers[fmt].verify(h, p) is True and hashers[fmt].verify(h, q) is False and hashers[fmt].identify(h) is True
+                    and all(hashers[g].identify(h) is False and hashers[g].verify(h, p) is False for g in FORMATS if g != fmt))
+        except Exception:  # noqa: BLE001
+            return False
+
     try:
         with env.scripted_rng(FillerRng(seed)):
             h = C.hash(p)
-        if lp_hasher(first, BASE_ROUNDS[KIND[first]]).identify(h) is not True or HS.handler(first).identify(h) is not True:
+        with env.scripted_rng(FillerRng(seed)):
+            h_direct = hashers[first].hash(p)
+        if not isinstance(h, str) or HS.handler(first).identify(h) is not True:
             out.append((f"C20|{comp}|hash:not_first_scheme", f"CryptContext({name}).hash() = {h!r} is not a {first} hash"))
-        elif HS.handler(first).verify(p, h) is not True:
-            out.append((f"C20|{comp}|hash:passlib_rejects", f"CryptContext({name}).hash() = {h!r} does not verify under passlib {first}"))
-        if C.verify(p, h) is not True:
-            out.append((f"C20|{comp}|verify:own_hash_rejected", f"CryptContext({name}) does not verify its own hash {h!r}"))
-        if C.verify(q, h) is not False:
-            out.append((f"C20|{comp}|verify:wrong_password_accepted", f"CryptContext({name}) verifies {q!r} against its own hash of {p!r}"))
-        if C.needs_update(h) is not False:
-            out.append((f"C20|{comp}|needs_update:own_hash:true", f"CryptContext({name}).needs_update(own hash {h!r}) is not False"))
+        elif component_ok(first, h_direct) and HS.handler(first).verify(p, h_direct) is True:
+            if HS.handler(first).verify(p, h) is not True:
+                out.append((f"C20|{comp}|hash:passlib_rejects", f"CryptContext({name}).hash() = {h!r} does not verify under passlib {first}"))
+            if C.verify(p, h) is not True:
+                out.append((f"C20|{comp}|verify:own_hash_rejected", f"CryptContext({name}) does not verify its own hash {h!r}"))
+            if C.verify(q, h) is not False:
+                out.append((f"C20|{comp}|verify:wrong_password_accepted", f"CryptContext({name}) verifies {q!r} against its own hash of {p!r}"))
+            if C.needs_update(h) is not False:
+                out.append((f"C20|{comp}|needs_update:own_hash:true", f"CryptContext({name}).needs_update(own hash {h!r}) is not False"))
     except core.HarnessError:
         raise
     except Exception as e:  # noqa: BLE001
@@ -335,6 +352,8 @@ def eval_context(case):
     for fmt in FORMATS:
         for maker in ("libpass", "passlib"):
             hf = sample_hashes(fmt, maker, p, seed)
+            if not component_ok(fmt, hf):
+                continue
             listed = fmt in schemes
             pos = "first" if fmt == first else ("listed" if listed else "unlisted")
             try:
@@ -426,9 +445,9 @@ def interop_cases(quick, seed):
         if k == "pbkdf2":
             for pl, p in pws:
                 for sl, s in salts[:2] if quick else salts:
-                    for r in rounds[:3] if quick else rounds:
+                    for r in rounds[:3] if quick else rounds[:4]:
                         combos.append((pl, p, sl, s, r))
-            for pl, p in few:
+            for pl, p in few if quick else few + pws[:: max(1, len(pws) // 24)]:
                 for sl, s in salts:
                     for r in rounds:
                         combos.append((pl, p, sl, s, r))
